@@ -2,7 +2,7 @@ SPEC = dict(
     id="C27",
     bin="c27",
     cases_quick=6000,
-    cases_thorough=300000,
+    cases_thorough=120000,
     level="proof",
     technique="Coq theorem: the i64-saturating implementation of is_market_open equals the unbounded-Z specification for all i64/u32/u8 inputs (explicit analysis of both saturating subtractions) + status/policy table + differential correspondence on a Pod-constructed PriceFeedPrice + spec oracle on the Rust outputs",
     text="is_market_open is proved equal, for every current timestamp, report timestamp, last-update difference (seconds or nanoseconds rounded up), timeout, raw status byte, price-flag byte and policy-flag byte, to: status not closed under the policy AND open flag AND (tracking disabled OR report age <= timeout AND last-update age <= timeout) evaluated on unbounded integers.",
